@@ -49,8 +49,11 @@ def mkColl : Coll → List Val → Val
   | .deque, xs => .deque xs
   | .vartuple, xs => .tuple xs
 
+/-- Does the member name None — directly or through an alias / NewType chain
+    (`isnonetype(unwrap(a))`)? -/
 def Ty.isNone : Ty → Bool
   | .none => true
+  | .wrap _ t => Ty.isNone t
   | _ => false
 
 /-- `inspection.isoptionaltype` on a union: some argument is None. -/
